@@ -6,7 +6,7 @@ From Coq Require Import List Arith Lia ZArith QArith PrimFloat.
 Import ListNotations.
 From AgileV Require Import Base.Prelude.
 From AgileV Require C09.Model.
-From AgileV Require Import C11.Model C11.TreeProofs C11.SumProofs C11.MinProofs C11.RangeProofs C11.PerProofs C11.GenericProofs C11.Joint C11.JointProofs.
+From AgileV Require Import C11.Model C11.TreeProofs C11.SumProofs C11.MinProofs C11.RangeProofs C11.PerProofs C11.UpdateProofs C11.GenericProofs C11.Joint C11.JointProofs.
 Local Open Scope nat_scope.
 
 (* ---------------------------------------------------------------- the segment trees ------- *)
@@ -173,6 +173,21 @@ Theorem max_priority_is_running_max : forall powa : Q -> Q, (forall x, (0 < x)%Q
     (max_prio s' = max_prio s \/ exists ip, In ip ps /\ max_prio s' = floor_prio QC (snd ip)).
 Proof. exact update_inv. Qed.
 Print Assumptions max_priority_is_running_max.
+
+(* update_priorities(): afterwards every addressed leaf holds max(priority, 1e-5)^alpha of the LAST
+   priority passed for it (repeated indices), every other leaf is untouched — together with
+   retrieve_interval: "after priorities are updated it samples index i with probability
+   proportional to priority_i^alpha" *)
+Theorem update_sets_leaves : forall powa : Q -> Q, (forall x, (0 < x)%Q -> (0 < powa x)%Q) ->
+  forall ps s, per_inv s -> Forall (fun ip => fst ip < size s) ps ->
+  forall i, i < tcap s ->
+  leaf 0%Q (tcap (fst (per_update QC powa s ps))) (sumt (fst (per_update QC powa s ps))) i =
+  match last_prio ps i with
+  | Some p => powa (floor_prio QC p)
+  | None => leaf 0%Q (tcap s) (sumt s) i
+  end.
+Proof. exact update_sets_leaves_lemma. Qed.
+Print Assumptions update_sets_leaves.
 
 (* importance weights: w_i = (N P(i))^-beta / max_j (N P(j))^-beta, the maximum is attained by a
    stored transition, every weight lies in (0, 1]; x -> x^-beta is any positive antitone function *)
